@@ -134,6 +134,7 @@ static std::vector<std::string> B_strings(int variant) {
   if (variant == 2) return {"aa", "aaaa", "ab", "abab", "ba", "baba", "bb", "bbbb", "cc"};
   return {"abcabc", "abcabd", "bcdbcd", "bcdbce"};
 }
+static int B_EXPECTED = 0;    // number of blocks the chosen cut size must give
 static StringDictionary *B_build(int variant, int blocks, int threads) {
   // variant = string set (variant % 3) + 3 * cut selector: among all cut sizes that give `blocks` blocks take the
   // smallest (0), the largest (1: shortest last block, total < blocks * cut) or the middle one (2)
@@ -148,6 +149,8 @@ static StringDictionary *B_build(int variant, int blocks, int threads) {
     if (nb == blocks) good.push_back(c);
   }
   if (!good.empty()) cut = cutsel == 0 ? good.front() : cutsel == 1 ? good.back() : good[good.size() / 2];
+  // (some string sets cannot be split into `blocks` blocks at all, e.g. four equal strings into three: the whole input is one block then)
+  { int nb = 0; unsigned long acc = 0; size_t k = 0; for (auto &s : S) { acc += s.size() + 1; k++; if (k == S.size() || acc > cut) { nb++; acc = 0; } } B_EXPECTED = nb; }
   uchar *buf = new uchar[t.size() + 2]; memcpy(buf, t.data(), t.size()); buf[t.size()] = 0; buf[t.size() + 1] = 0;
   return new StringDictionaryHASHRPDACBlocks(new IteratorDictStringPlain(buf, t.size()), t.size(), 10, cut, threads);
 }
@@ -159,7 +162,7 @@ static void DB(int W, int T) {   // T = number of blocks
   // the constructor has returned: every block must be complete
   char b[256];
   sx_sh->obs[0] = (long)d->parts.size();
-  if ((int)d->parts.size() != T) { snprintf(b, sizeof b, "%zu blocks built, expected %d", d->parts.size(), T); oracle_fail(b); }
+  if ((int)d->parts.size() != B_EXPECTED) { snprintf(b, sizeof b, "%zu blocks built, expected %d", d->parts.size(), B_EXPECTED); oracle_fail(b); }
   for (size_t i = 0; i < d->parts.size(); i++) if (!d->parts[i]) { snprintf(b, sizeof b, "block %zu is null after the constructor returned", i); oracle_fail(b); break; }
   if (sx_sh->outcome != SX_OUT_ORACLE) {
     sx_end();     // saving is sequential code; no need to schedule it
